@@ -48,12 +48,13 @@ def make_table(rng, n_mut, n_samples, depth=(20, 400), tumour_content=True, erro
     return rows, samples
 
 
-def write_table(rows, path, sep="\t", columns=None):
+def write_table(rows, path, sep="\t", columns=None, newline="\n", final_newline=True):
+    """columns: column order (default: the rows' own key order); newline: line terminator ("\r\n" for files that
+    passed through Windows tools); final_newline: whether the last line is terminated."""
     cols = columns or list(rows[0].keys())
-    with open(path, "w") as fh:
-        fh.write(sep.join(cols) + "\n")
-        for r in rows:
-            fh.write(sep.join(str(r[c]) for c in cols) + "\n")
+    lines = [sep.join(cols)] + [sep.join(str(r[c]) for c in cols) for r in rows]
+    with open(path, "w", newline="") as fh:
+        fh.write(newline.join(lines) + (newline if final_newline else ""))
 
 
 def prob_index(cluster_id, n):
@@ -61,7 +62,8 @@ def prob_index(cluster_id, n):
     return int(str(cluster_id).lstrip("C")) % n
 
 
-def make_clusters(rng, rows, n_clusters, outlier_prob_col=None, prev_col="cellular_prevalence", textual_ids=False):
+def make_clusters(rng, rows, n_clusters, outlier_prob_col=None, prev_col="cellular_prevalence", textual_ids=False,
+                  per_mutation=False, shuffle=False):
     """Cluster file rows (PyClone-VI style: integer cluster ids, one row per mutation and sample)."""
     muts = []
     for r in rows:
@@ -85,6 +87,16 @@ def make_clusters(rng, rows, n_clusters, outlier_prob_col=None, prev_col="cellul
         if outlier_prob_col is not None:
             row["outlier_prob"] = outlier_prob_col[prob_index(assign[r["mutation_id"]], len(outlier_prob_col))]
         out.append(row)
+    if per_mutation:
+        # the minimal cluster file (as the shipped examples): one row per mutation, no sample / prevalence columns
+        seen, slim = set(), []
+        for row in out:
+            if row["mutation_id"] not in seen:
+                seen.add(row["mutation_id"])
+                slim.append({k: v for k, v in row.items() if k not in ("sample_id", prev_col)})
+        out = slim
+    if shuffle:
+        out = [out[int(i)] for i in rng.permutation(len(out))]
     return out, assign
 
 
